@@ -485,6 +485,11 @@ PROPS["C07"] = {
 PROPS["C08"]["harness"].append({"bin": "h_codec", "args": ["limits"]})
 # "a limit ... received from the destination": the real Client.Connect against a real StreamServer
 PROPS["C08"]["harness"].append({"bin": "h_hs", "args": []})
+# C14: "... and the dictionary limit advertised by the server is in force": the limit the options carry is
+# enforced by pkg.SizeLimiter and the writer's restart logic - the machinery of C08 (its limiter failures count here)
+PROPS["C14"]["harness"].append({"bin": "h_prim", "args": ["limiter"], "as_props": ["C08"]})
+PROPS["C14"]["harness"].append({"bin": "h_codec", "args": ["limits"], "as_props": ["C08"]})
+PROPS["C14"]["lean_modules"].append("Stef.Props.C08")
 PROPS["C03"]["harness"].append({"bin": "h_codec", "args": ["hostile"]})
 
 PROPS["C09"]["needs_gen"] = ["Funcs"]
